@@ -27,6 +27,7 @@ type Job struct {
 	Tier    string   // "" = both tiers, "thorough" = thorough only, "quick" = quick only
 	TmoMs   int      // per-query timeout
 	NoReplay bool    // witness replay not meaningful (e.g. race harness with snapshot/restore)
+	ReplayEntry string // entry whose native run demonstrates a counterexample of this job (P7)
 	Note    string
 }
 
@@ -125,7 +126,7 @@ func cmdCheck(args []string) int {
 			}
 			a = append(a, "-timeout-ms", strconv.Itoa(tmo))
 			if *tier == "thorough" {
-				a = append(a, "-cross", "400")
+				a = append(a, "-cross", "400", "-cross-budget", "300")
 			} else {
 				a = append(a, "-cross", "25")
 			}
